@@ -1,56 +1,64 @@
-//! Well-formed UTF-8 byte sequences, Unicode 15 §3.9 Table 3-7, as a one-pass
-//! validator.  Used (a) as the specification of "payload is UTF-8", (b) as the
-//! Kani stub for `core::str::from_utf8` in composite harnesses; the leaf
-//! string harnesses prove it equal to the real `from_utf8` on every input of
-//! the enumerated lengths.
+//! Well-formed UTF-8 byte sequences, Unicode 15 §3.9 Table 3-7, as a
+//! byte-at-a-time automaton (one loop iteration per octet, so the loop bound
+//! is the slice length).  Used (a) as the specification of "payload is UTF-8",
+//! (b) as the Kani stub for `core::str::from_utf8` in composite harnesses; the
+//! leaf string harnesses compare it with the real `from_utf8` on every input
+//! of the enumerated lengths.
 
 pub fn is_utf8(b: &[u8]) -> bool {
     let n = b.len();
+    // number of continuation octets still expected, and the admissible range
+    // of the next one (only the first continuation octet is ever restricted)
+    let mut need: u8 = 0;
+    let mut lo: u8 = 0x80;
+    let mut hi: u8 = 0xBF;
+    let mut ok = true;
     let mut i = 0;
     while i < n {
         let c = b[i];
-        if c < 0x80 {
-            i += 1;
-            continue;
-        }
-        // number of continuation octets and the admissible range of the first one
-        let (k, lo, hi) = if c >= 0xC2 && c <= 0xDF {
-            (1, 0x80u8, 0xBFu8)
-        } else if c == 0xE0 {
-            (2, 0xA0, 0xBF)
-        } else if (c >= 0xE1 && c <= 0xEC) || c == 0xEE || c == 0xEF {
-            (2, 0x80, 0xBF)
-        } else if c == 0xED {
-            (2, 0x80, 0x9F)
-        } else if c == 0xF0 {
-            (3, 0x90, 0xBF)
-        } else if c >= 0xF1 && c <= 0xF3 {
-            (3, 0x80, 0xBF)
-        } else if c == 0xF4 {
-            (3, 0x80, 0x8F)
+        if need == 0 {
+            if c < 0x80 {
+                // ASCII
+            } else if c >= 0xC2 && c <= 0xDF {
+                need = 1;
+                lo = 0x80;
+                hi = 0xBF;
+            } else if c == 0xE0 {
+                need = 2;
+                lo = 0xA0;
+                hi = 0xBF;
+            } else if (c >= 0xE1 && c <= 0xEC) || c == 0xEE || c == 0xEF {
+                need = 2;
+                lo = 0x80;
+                hi = 0xBF;
+            } else if c == 0xED {
+                need = 2;
+                lo = 0x80;
+                hi = 0x9F;
+            } else if c == 0xF0 {
+                need = 3;
+                lo = 0x90;
+                hi = 0xBF;
+            } else if c >= 0xF1 && c <= 0xF3 {
+                need = 3;
+                lo = 0x80;
+                hi = 0xBF;
+            } else if c == 0xF4 {
+                need = 3;
+                lo = 0x80;
+                hi = 0x8F;
+            } else {
+                ok = false;
+            }
         } else {
-            return false;
-        };
-        if i + k >= n {
-            return false;
-        }
-        let c1 = b[i + 1];
-        if c1 < lo || c1 > hi {
-            return false;
-        }
-        if k >= 2 {
-            let c2 = b[i + 2];
-            if c2 < 0x80 || c2 > 0xBF {
-                return false;
+            if c < lo || c > hi {
+                ok = false;
             }
+            need -= 1;
+            lo = 0x80;
+            hi = 0xBF;
         }
-        if k >= 3 {
-            let c3 = b[i + 3];
-            if c3 < 0x80 || c3 > 0xBF {
-                return false;
-            }
-        }
-        i += k + 1;
+        i += 1;
     }
-    true
+    ok && need == 0
 }
